@@ -1176,14 +1176,19 @@ Definition authorized_only : Prop :=
   forall s who c k s', reachable s -> who <> Some auth_bypass_id ->
     dispatch s who c k = (OExec, s') -> policy s who c.
 
-(** the known classes of violating inputs (decidable, by command kind only) *)
-Definition UncheckedReadCommand (c : cmd) : bool :=
-  match c with CReplay _ _ | CShow _ | CRemember _ _ | CCompare _ => true | _ => false end.
+(** the known classes of violating inputs (decidable, by command kind only).  After d146031,
+    20fee3f, 8e7945c and 79dcefb only SHOW and FLUSH are left. *)
+Definition UncheckedShow (c : cmd) : bool := match c with CShow _ => true | _ => false end.
 Definition FlushNoRole (c : cmd) : bool := match c with CFlush => true | _ => false end.
-Definition SequenceTailUnchecked (c : cmd) : bool :=
-  match c with CQuery (_, _ :: _) => true | _ => false end.
-Definition KnownClass (c : cmd) : bool :=
-  UncheckedReadCommand c || FlushNoRole c || SequenceTailUnchecked c.
+Definition KnownClass (c : cmd) : bool := UncheckedShow c || FlushNoRole c.
+
+(** Environment fact carried by the abstract command: the event types stored in a context
+    ([present] of a whole-context REPLAY) are defined event types - STORE refuses anything else. *)
+Definition cmd_wf (s : state) (c : cmd) : Prop :=
+  match c with
+  | CReplay None present => forall t, In t present -> smem t (st_schemas s) = true
+  | _ => True
+  end.
 
 Lemma reserved_id_is_bypass : auth_bypass_id = bs "bypass".
 Proof. reflexivity. Qed.
@@ -1211,12 +1216,22 @@ Ltac exec_check H :=
       [exfalso; inversion H; subst; eapply hcheck_some_not_exec; [exact HC|reflexivity]|]
   end.
 
+Lemma read_check_pass : forall s who ts, wf s ->
+  read_check true (st_cache s) who ts = None ->
+  exists u, who = Some u /\ (u = auth_bypass_id \/ forall t, In t ts -> may_read (st_users s) u t).
+Proof.
+  intros s who ts W H. unfold read_check in H. apply hcheck_none in H as (u & -> & [[_ E]|E]).
+  - exists u. auto.
+  - exists u. split; [reflexivity|]. right. intros t Hin. rewrite forallb_forall in E.
+    apply can_read_spec; [exact W|]. apply E. exact Hin.
+Qed.
+
 Theorem outside_known : forall s who c k s',
-  wf s -> who <> Some auth_bypass_id -> KnownClass c = false ->
+  wf s -> who <> Some auth_bypass_id -> KnownClass c = false -> cmd_wf s c ->
   dispatch s who c k = (OExec, s') -> policy s who c.
 Proof.
-  intros s who c k s' W NBy K H. unfold KnownClass in K.
-  apply orb_false_iff in K as [K K4]. apply orb_false_iff in K as [K2 K3].
+  intros s who c k s' W NBy K CW H. unfold KnownClass in K.
+  apply orb_false_iff in K as [K2 K3].
   assert (NB : forall u, who = Some u -> true = true -> u <> auth_bypass_id).
   { intros u -> _ E. subst u. apply NBy. reflexivity. }
   destruct c; try discriminate K2; try discriminate K3; cbn [dispatch] in H; cbn [policy needs].
@@ -1224,13 +1239,37 @@ Proof.
     change auth_ident_store with true in H. cbv iota in H. exec_check H.
     apply hcheck_none in HC as (u & -> & [[_ E]|E]); [exfalso; eapply NB; eauto; reflexivity|].
     exists u. split; [reflexivity|]. apply can_write_spec; assumption.
-  - (* QUERY *)
-    destruct q as [t seq]. destruct seq; [|discriminate K4]. cbn [fst snd] in H.
+  - (* QUERY, sequence queries included (79dcefb) *)
+    destruct q as [t seq]. cbn [fst snd] in H.
     destruct (is_blank t); [discriminate|].
-    change auth_ident_query with true in H. change auth_query_checks_sequence with false in H. cbv iota in H.
-    exec_check H.
+    change auth_ident_query with true in H. change auth_query_checks_sequence with true in H. cbv iota in H.
+    exec_check H. exec_check H.
     apply hcheck_none in HC as (u & -> & [[_ E]|E]); [exfalso; eapply NB; eauto; reflexivity|].
-    exists u. split; [reflexivity|]. intros t' [<-|[]]. apply can_read_spec; assumption.
+    apply hcheck_none in HC0 as (u' & Eu & [[_ E']|E']); inversion Eu; subst u';
+      [exfalso; eapply NB; eauto; reflexivity|].
+    exists u. split; [reflexivity|]. cbn [q_types fst snd]. intros t' [<-|Hin].
+    + apply can_read_spec; assumption.
+    + rewrite forallb_forall in E'. apply can_read_spec; [exact W|]. apply E'. exact Hin.
+  - (* REPLAY (d146031) *)
+    change auth_ident_replay with true in H.
+    destruct (read_check true (st_cache s) who (match t with Some t0 => [t0] | None => st_schemas s end)) as [o|] eqn:RC.
+    { exfalso. inversion H; subst. unfold read_check in RC. eapply hcheck_some_not_exec; [exact RC|reflexivity]. }
+    destruct (read_check_pass s who _ W RC) as (u & -> & [E|R]); [exfalso; eapply NB; eauto; reflexivity|].
+    exists u. split; [reflexivity|]. intros t' Hin. destruct t as [t0|]; cbn [replay_types] in Hin.
+    + apply R. exact Hin.
+    + apply R. apply smem_true. apply CW. exact Hin.
+  - (* comparison (20fee3f) *)
+    change auth_ident_compare with true in H.
+    destruct (read_check true (st_cache s) who (flat_map q_types qs)) as [o|] eqn:RC.
+    { exfalso. inversion H; subst. unfold read_check in RC. eapply hcheck_some_not_exec; [exact RC|reflexivity]. }
+    destruct (read_check_pass s who _ W RC) as (u & -> & [E|R]); [exfalso; eapply NB; eauto; reflexivity|].
+    exists u. split; [reflexivity|]. exact R.
+  - (* REMEMBER (8e7945c) *)
+    change auth_ident_remember with true in H.
+    destruct (read_check true (st_cache s) who (q_types q)) as [o|] eqn:RC.
+    { exfalso. inversion H; subst. unfold read_check in RC. eapply hcheck_some_not_exec; [exact RC|reflexivity]. }
+    destruct (read_check_pass s who _ W RC) as (u & -> & [E|R]); [exfalso; eapply NB; eauto; reflexivity|].
+    exists u. split; [reflexivity|]. exact R.
   - (* PING *) exact I.
   - (* DEFINE *)
     change auth_ident_define with true in H. cbv iota in H. exec_check H.
@@ -1268,26 +1307,13 @@ Proof.
   - (* BATCH *) exact I.
 Qed.
 
-(** even inside the sequence class the head event type of a query is checked *)
-Lemma query_head_checked : forall s u q k s',
-  wf s -> u <> auth_bypass_id -> dispatch s (Some u) (CQuery q) k = (OExec, s') ->
-  may_read (st_users s) u (fst q).
-Proof.
-  intros s u q k s' W N H. cbn [dispatch] in H. destruct (is_blank (fst q)); [discriminate|].
-  change auth_ident_query with true in H. cbv iota in H. exec_check H.
-  apply hcheck_none in HC as (u' & E & [[_ B]|C]); inversion E; subst u'; [contradiction|].
-  apply can_read_spec; assumption.
-Qed.
-
-(** the commands of the unchecked classes do not depend on the caller's identity at all *)
+(** the commands of the two remaining classes do not depend on the caller's identity at all *)
 Lemma no_identity_commands : forall s who who' c k,
-  UncheckedReadCommand c || FlushNoRole c = true -> dispatch s who c k = dispatch s who' c k.
+  KnownClass c = true -> dispatch s who c k = dispatch s who' c k.
 Proof.
   intros s who who' c k H. destruct c; try discriminate H; cbn [dispatch];
     unfold read_check;
-    change auth_ident_replay with false; change auth_ident_compare with false;
-    change auth_ident_remember with false; change auth_ident_show with false;
-    change auth_ident_flush with false; reflexivity.
+    change auth_ident_show with false; change auth_ident_flush with false; reflexivity.
 Qed.
 
 (** ** (a) repaired by 139a8cf: the reserved ids cannot be created *)
@@ -1328,45 +1354,16 @@ Proof. intros uid t H A. apply (can_read_spec _ _ _ w_state_wf) in A. congruence
 Lemma not_writer : forall uid, writer_role (st_cache w_state) uid = false -> ~ writer_user (st_users w_state) uid.
 Proof. intros uid H A. apply (writer_role_spec _ _ w_state_wf) in A. congruence. Qed.
 
-(** (b) user "rd" (read permission on "ta" only) replays a context holding "ta" and "tb" events *)
-Lemma refute_replay :
-  exists s', dispatch w_state (Some (bs "rd")) (CReplay None [bs "ta"; bs "tb"]) [] = (OExec, s')
-  /\ UncheckedReadCommand (CReplay None [bs "ta"; bs "tb"]) = true
-  /\ ~ policy w_state (Some (bs "rd")) (CReplay None [bs "ta"; bs "tb"]).
-Proof.
-  eexists. split; [vm_compute; reflexivity|]. split; [reflexivity|].
-  intros (uid & E & A). inversion E; subst uid. cbn [needs replay_types] in A.
-  specialize (A (bs "tb") (or_intror (or_introl eq_refl))). revert A. apply not_reader. vm_compute. reflexivity.
-Qed.
-
+(** (b) SHOW: user "rd" (READ on "ta" only) is shown a materialisation of "tb" rows *)
 Lemma refute_show :
   exists s', dispatch w_state (Some (bs "rd")) (CShow (bs "mb")) [] = (OExec, s')
+  /\ UncheckedShow (CShow (bs "mb")) = true
   /\ ~ policy w_state (Some (bs "rd")) (CShow (bs "mb")).
 Proof.
-  eexists. split; [vm_compute; reflexivity|].
+  eexists. split; [vm_compute; reflexivity|]. split; [reflexivity|].
   intros (uid & E & A). inversion E; subst uid. cbn [needs] in A.
-  specialize (A (bs "tb")). revert A. intro A.
+  specialize (A (bs "tb")).
   assert (In (bs "tb") (mat_types w_state (bs "mb"))) as HI by (vm_compute; left; reflexivity).
-  apply A in HI. revert HI. apply not_reader. vm_compute. reflexivity.
-Qed.
-
-Lemma refute_remember :
-  exists s', dispatch w_state (Some (bs "rd")) (CRemember (bs "m2") (bs "tb", [])) [] = (OExec, s')
-  /\ ~ policy w_state (Some (bs "rd")) (CRemember (bs "m2") (bs "tb", [])).
-Proof.
-  eexists. split; [vm_compute; reflexivity|].
-  intros (uid & E & A). inversion E; subst uid. cbn [needs q_types fst snd] in A.
-  specialize (A (bs "tb") (or_introl eq_refl)). revert A. apply not_reader. vm_compute. reflexivity.
-Qed.
-
-Lemma refute_compare :
-  exists s', dispatch w_state (Some (bs "rd")) (CCompare [(bs "ta", []); (bs "tb", [])]) [] = (OExec, s')
-  /\ ~ policy w_state (Some (bs "rd")) (CCompare [(bs "ta", []); (bs "tb", [])]).
-Proof.
-  eexists. split; [vm_compute; reflexivity|].
-  intros (uid & E & A). inversion E; subst uid. cbn [needs] in A.
-  specialize (A (bs "tb")). 
-  assert (In (bs "tb") (flat_map q_types [(bs "ta", []); (bs "tb", [])])) as HI by (cbn; auto).
   apply A in HI. revert HI. apply not_reader. vm_compute. reflexivity.
 Qed.
 
@@ -1378,45 +1375,66 @@ Proof.
   intros (uid & E & A). inversion E; subst uid. revert A. apply not_writer. vm_compute. reflexivity.
 Qed.
 
-(** (c) user "rd" runs a sequence query whose second event type it cannot read *)
-Lemma refute_sequence :
-  exists s', dispatch w_state (Some (bs "rd")) (CQuery (bs "ta", [bs "tb"])) [] = (OExec, s')
-  /\ SequenceTailUnchecked (CQuery (bs "ta", [bs "tb"])) = true
-  /\ ~ policy w_state (Some (bs "rd")) (CQuery (bs "ta", [bs "tb"])).
-Proof.
-  eexists. split; [vm_compute; reflexivity|]. split; [reflexivity|].
-  intros (uid & E & A). inversion E; subst uid. cbn [needs q_types fst snd] in A.
-  specialize (A (bs "tb") (or_intror (or_introl eq_refl))). revert A. apply not_reader. vm_compute. reflexivity.
-Qed.
-
 Definition rd_is_not_bypass : Some (bs "rd") <> Some auth_bypass_id.
 Proof. discriminate. Qed.
 
 Theorem authorized_only_refuted :
   ~ authorized_only /\
-  (exists s who c k s', reachable s /\ who <> Some auth_bypass_id /\ dispatch s who c k = (OExec, s') /\ UncheckedReadCommand c = true /\ ~ policy s who c) /\
-  (exists s who c k s', reachable s /\ who <> Some auth_bypass_id /\ dispatch s who c k = (OExec, s') /\ FlushNoRole c = true /\ ~ policy s who c) /\
-  (exists s who c k s', reachable s /\ who <> Some auth_bypass_id /\ dispatch s who c k = (OExec, s') /\ SequenceTailUnchecked c = true /\ ~ policy s who c).
+  (exists s who c k s', reachable s /\ who <> Some auth_bypass_id /\ dispatch s who c k = (OExec, s') /\ UncheckedShow c = true /\ ~ policy s who c) /\
+  (exists s who c k s', reachable s /\ who <> Some auth_bypass_id /\ dispatch s who c k = (OExec, s') /\ FlushNoRole c = true /\ ~ policy s who c).
 Proof.
-  split; [|split; [|split]].
+  split; [|split].
   - intro A. destruct refute_flush as (s' & D & _ & N). apply N.
     eapply A; [apply w_state_reachable|apply rd_is_not_bypass|exact D].
-  - destruct refute_replay as (s' & D & K & N). do 5 eexists. split; [apply w_state_reachable|]. split; [apply rd_is_not_bypass|]. eauto.
+  - destruct refute_show as (s' & D & K & N). do 5 eexists. split; [apply w_state_reachable|]. split; [apply rd_is_not_bypass|]. eauto.
   - destruct refute_flush as (s' & D & K & N). do 5 eexists. split; [apply w_state_reachable|]. split; [apply rd_is_not_bypass|]. eauto.
-  - destruct refute_sequence as (s' & D & K & N). do 5 eexists. split; [apply w_state_reachable|]. split; [apply rd_is_not_bypass|]. eauto.
 Qed.
 
-(** the hypotheses of [outside_known] are satisfiable: a plain QUERY by "rd" is executed, is in no
-    known class, and a STORE by "rd" is refused; CREATE USER bypass by the admin is refused *)
+(** The former witnesses of the repaired classes are refused now: "rd" holds READ on "ta" only
+    ("ta" and "tb" are defined).  Whole-context REPLAY needs every defined type. *)
+Example repaired_witnesses :
+  fst (dispatch w_state (Some (bs "rd")) (CReplay None [bs "ta"; bs "tb"]) []) = O403 /\
+  fst (dispatch w_state (Some (bs "rd")) (CReplay None [bs "ta"]) []) = O403 /\
+  fst (dispatch w_state (Some (bs "rd")) (CReplay (Some (bs "tb")) [bs "ta"; bs "tb"]) []) = O403 /\
+  fst (dispatch w_state (Some (bs "rd")) (CReplay (Some (bs "ta")) [bs "ta"; bs "tb"]) []) = OExec /\
+  fst (dispatch w_state None (CReplay (Some (bs "ta")) [bs "ta"]) []) = O401 /\
+  fst (dispatch w_state w_root (CReplay None [bs "ta"; bs "tb"]) []) = OExec /\
+  fst (dispatch w_state (Some (bs "rd")) (CRemember (bs "m2") (bs "tb", [])) []) = O403 /\
+  fst (dispatch w_state (Some (bs "rd")) (CRemember (bs "m2") (bs "ta", [])) []) = OExec /\
+  fst (dispatch w_state (Some (bs "rd")) (CCompare [(bs "ta", []); (bs "tb", [])]) []) = O403 /\
+  fst (dispatch w_state (Some (bs "rd")) (CCompare [(bs "ta", []); (bs "ta", [])]) []) = OExec /\
+  fst (dispatch w_state (Some (bs "rd")) (CQuery (bs "ta", [bs "tb"])) []) = O403 /\
+  fst (dispatch w_state (Some (bs "rd")) (CQuery (bs "ta", [bs "ta"])) []) = OExec.
+Proof. repeat split; vm_compute; reflexivity. Qed.
+
+(** the hypotheses of [outside_known] are satisfiable *)
 Example outside_known_inhabited :
   KnownClass (CQuery (bs "ta", [])) = false /\
+  KnownClass (CReplay None [bs "ta"]) = false /\ cmd_wf w_state (CReplay None [bs "ta"; bs "tb"]) /\
   fst (dispatch w_state (Some (bs "rd")) (CQuery (bs "ta", [])) []) = OExec /\
   fst (dispatch w_state (Some (bs "rd")) (CQuery (bs "tb", [])) []) = O403 /\
   fst (dispatch w_state (Some (bs "rd")) (CStore (bs "ta")) []) = O403 /\
   fst (dispatch w_state None (CStore (bs "ta")) []) = O401 /\
   dispatch w_state w_root (CCreateUser (bs "bypass") (Some (bs "kb")) (Some [bs "admin"])) [] = (O400, w_state) /\
   dispatch w_state w_root (CCreateUser (bs "no-auth") (Some (bs "kb")) None) [] = (O400, w_state).
-Proof. repeat split; vm_compute; reflexivity. Qed.
+Proof.
+  repeat split; try (vm_compute; reflexivity).
+  intros t [<-|[<-|[]]]; vm_compute; reflexivity.
+Qed.
+
+(** The four command kinds that used to be known classes, spelled out: an executed REPLAY,
+    REMEMBER, comparison or (sequence) query was issued by a user who may read every event type
+    it reads. *)
+Theorem read_commands_checked : forall s u c k s',
+  wf s -> u <> auth_bypass_id -> cmd_wf s c ->
+  match c with CReplay _ _ | CRemember _ _ | CCompare _ | CQuery _ => True | _ => False end ->
+  dispatch s (Some u) c k = (OExec, s') -> needs s u c.
+Proof.
+  intros s u c k s' W N CW Kd H.
+  assert (P : policy s (Some u) c).
+  { eapply outside_known; eauto; [intro E; inversion E; contradiction|]. destruct c; try contradiction; reflexivity. }
+  destruct c; try contradiction; destruct P as (u' & E & P); inversion E; subst; exact P.
+Qed.
 
 (** * End to end: a TCP line that gets a command executed *)
 Section EndToEnd.
@@ -1430,7 +1448,7 @@ Section EndToEnd.
     serve_tcp hmac parse cfg s conn line now tok key = (SOut c uid OExec, conn', s') ->
     exists text, credential hmac s conn now line text uid /\ parse text = Some c /\
                  is_reserved_id uid = false /\
-                 (KnownClass c = false -> policy s (Some uid) c).
+                 (KnownClass c = false -> cmd_wf s c -> policy s (Some uid) c).
   Proof.
     intros cfg s conn line now tok key c uid conn' s' R On H. unfold serve_tcp in H.
     pose proof (gate_never_reserved hmac cfg s conn line now tok R On) as NR.
@@ -1440,35 +1458,35 @@ Section EndToEnd.
     destruct (dispatch s1 (Some du) c0 key) as [o s2] eqn:D. inversion H; subst. clear H.
     apply gate_sound in G as (C & _ & ->); [|exact On].
     exists text. split; [exact C|]. split; [exact P|]. split; [exact NR|].
-    intro K. eapply outside_known; eauto; [apply reachable_wf; exact R|].
+    intros K CW. eapply outside_known; eauto; [apply reachable_wf; exact R|].
     intro E. inversion E; subst. vm_compute in NR. discriminate.
   Qed.
 
   Theorem served_unix_outside_known : forall cfg s line key c uid s',
     reachable s -> auth_on cfg ->
     serve_unix hmac parse cfg s line key = (SOut c uid OExec, s') ->
-    is_reserved_id uid = false /\ (KnownClass c = false -> policy s (Some uid) c).
+    is_reserved_id uid = false /\ (KnownClass c = false -> cmd_wf s c -> policy s (Some uid) c).
   Proof.
     intros cfg s line key c uid s' R On H. unfold serve_unix, after_gate in H.
     destruct (gate_unix hmac cfg s line) as [|au|text du] eqn:G; try (inversion H; fail).
     destruct (parse text) as [c0|]; [|inversion H].
     destruct (dispatch s (Some du) c0 key) as [o s2] eqn:D. inversion H; subst. clear H.
     pose proof (gate_unix_never_reserved _ _ _ _ _ _ R On G) as NR. split; [exact NR|].
-    intro K. eapply outside_known; eauto; [apply reachable_wf; exact R|].
+    intros K CW. eapply outside_known; eauto; [apply reachable_wf; exact R|].
     intro E. inversion E; subst. vm_compute in NR. discriminate.
   Qed.
 
   Theorem served_http_outside_known : forall cfg s hdr body key c uid s',
     reachable s -> auth_on cfg ->
     serve_http hmac parse cfg s hdr body key = (SOut c uid OExec, s') ->
-    is_reserved_id uid = false /\ (KnownClass c = false -> policy s (Some uid) c).
+    is_reserved_id uid = false /\ (KnownClass c = false -> cmd_wf s c -> policy s (Some uid) c).
   Proof.
     intros cfg s hdr body key c uid s' R On H. unfold serve_http, after_gate in H.
     destruct (gate_http hmac cfg s hdr body) as [|au|text du] eqn:G; try (inversion H; fail).
     destruct (parse text) as [c0|]; [|inversion H].
     destruct (dispatch s (Some du) c0 key) as [o s2] eqn:D. inversion H; subst. clear H.
     pose proof (gate_http_never_reserved _ _ _ _ _ _ _ R On G) as NR. split; [exact NR|].
-    intro K. eapply outside_known; eauto; [apply reachable_wf; exact R|].
+    intros K CW. eapply outside_known; eauto; [apply reachable_wf; exact R|].
     intro E. inversion E; subst. vm_compute in NR. discriminate.
   Qed.
 End EndToEnd.
@@ -1517,9 +1535,15 @@ Theorem revoke_perm_reachable : forall s who r w ts id k s' t,
 Proof. intros. eapply revoke_perm_next; eauto. apply reachable_wf. assumption. Qed.
 
 Theorem outside_known_reachable : forall s who c k s',
-  reachable s -> who <> Some auth_bypass_id -> KnownClass c = false ->
+  reachable s -> who <> Some auth_bypass_id -> KnownClass c = false -> cmd_wf s c ->
   dispatch s who c k = (OExec, s') -> policy s who c.
 Proof. intros. eapply outside_known; eauto. apply reachable_wf. assumption. Qed.
+
+Theorem read_commands_reachable : forall s u c k s',
+  reachable s -> u <> auth_bypass_id -> cmd_wf s c ->
+  match c with CReplay _ _ | CRemember _ _ | CCompare _ | CQuery _ => True | _ => False end ->
+  dispatch s (Some u) c k = (OExec, s') -> needs s u c.
+Proof. intros. eapply read_commands_checked; eauto. apply reachable_wf. assumption. Qed.
 
 (** * GRANT / REVOKE naming several event types *)
 
